@@ -9,7 +9,7 @@
    the class is inhabited by a legitimate input (F7);  (c) [C13_S_fixed_total]: the repaired form
    of patches/fix-C13-*.diff returns for all inputs, and  (d) [C13_S_fixed_agrees]: it returns what
    the current code returns wherever the current code returns at all. *)
-From GPA Require Import Panic PanicProofs.
+From GPA Require Import Panic PanicProofs BatchLoop BatchLoopProofs.
 Local Open Scope nat_scope.
 
 (* ---- the primitive: slicing / truncating a str at a byte offset ---- *)
@@ -247,6 +247,66 @@ Theorem C13_site_total :
   (forall a b, exists r, continue_sleep_fixed a b = Some r).
 Proof. exact site_total. Qed.
 Print Assumptions C13_site_total.
+
+(* ---- liveness of the telemetry reader: the batching loop of EventReader::send_events ----
+   (Model/BatchLoop.v: a flat state machine iterated with fuel; generic in the event type and in
+   the size test [over], about which NOTHING is assumed) *)
+
+(* termination: 4 * n + 2 steps always suffice; the out-of-fuel value is never returned *)
+Theorem C13_batch_loop_terminates : forall (E : Type) (over : list E -> bool) (evs : list E),
+  exists r, send_events over evs = Some r.
+Proof. exact @send_events_terminates. Qed.
+Print Assumptions C13_batch_loop_terminates.
+
+(* what each step of the loop does (move one event into the batch / drop exactly one / push the
+   overflowing one back with a non-empty batch / send / start a batch) *)
+Theorem C13_batch_step_progress : forall (E : Type) (over : list E -> bool) (s : state) (l : label) (s' : state),
+  step over s = Next l s' ->
+  match l with
+  | LInit => at_pc s = Outer /\ pend s' = pend s /\ pend s <> [] /\ batch s' = [] /\ more s' = true /\ at_pc s' = Inner
+             /\ sent s' = sent s /\ dropped s' = dropped s
+  | LMove => exists e, pend s = e :: pend s' /\ batch s' = batch s ++ [e] /\ sent s' = sent s /\ dropped s' = dropped s
+  | LDrop => exists e, pend s = e :: pend s' /\ batch s = [] /\ batch s' = [] /\ dropped s' = e :: dropped s
+             /\ sent s' = sent s /\ more s' = false /\ over [e] = true
+  | LPushBack => pend s' = pend s /\ batch s <> [] /\ batch s' = batch s /\ more s' = false
+                 /\ sent s' = sent s /\ dropped s' = dropped s
+  | LSend => sent s' = batch s :: sent s /\ pend s' = pend s /\ at_pc s' = Outer /\ dropped s' = dropped s
+             /\ (pend s = [] \/ more s = false)
+  end.
+Proof. exact @step_progress. Qed.
+Print Assumptions C13_batch_step_progress.
+
+(* every outer iteration ends, with strictly fewer pending events, having either sent a non-empty
+   batch or dropped exactly one event *)
+Theorem C13_batch_iteration_ends : forall (E : Type) (over : list E -> bool) (s0 : state),
+  at_pc s0 = Outer -> exists s', to_outer over (fuel_for (length (pend s0))) s0 = Some s'.
+Proof. exact @outer_iteration_ends. Qed.
+Print Assumptions C13_batch_iteration_ends.
+
+Theorem C13_batch_iteration_progress : forall (E : Type) (over : list E -> bool) (fuel : nat) (s0 s' : state),
+  at_pc s0 = Outer -> pend s0 <> [] -> to_outer over fuel s0 = Some s' -> iteration_result s0 s'.
+Proof. exact @outer_iteration_progress. Qed.
+Print Assumptions C13_batch_iteration_progress.
+
+(* a pending list that does not shrink over two consecutive iterations is impossible *)
+Theorem C13_batch_pending_shrinks : forall (E : Type) (over : list E -> bool) (f1 f2 : nat) (s0 s1 s2 : state),
+  at_pc s0 = Outer -> pend s0 <> [] -> to_outer over f1 s0 = Some s1 -> pend s1 <> [] -> to_outer over f2 s1 = Some s2 ->
+  (length (pend s2) < length (pend s1) /\ length (pend s1) < length (pend s0))%nat.
+Proof. exact @pending_shrinks_every_iteration. Qed.
+Print Assumptions C13_batch_pending_shrinks.
+
+(* what these exclude (seeded change s2): without the "single event too large: drop it" branch one
+   event that is over the limit on its own exhausts any fuel *)
+Theorem C13_batch_s2_variant_refuted : forall (E : Type) (over : list E -> bool) (e : E),
+  over [e] = true -> forall fuel, run_s2 over fuel (init [e]) = None.
+Proof. exact @s2_variant_never_finishes. Qed.
+Print Assumptions C13_batch_s2_variant_refuted.
+
+Example C13_batch_nonvacuous :
+  (* limit 100, envelope 10: [30;30;30;200;30] -> batches {30,30} {30} {30}, the 200 is dropped *)
+  summary 100 10 [30; 30; 30; 200; 30]%N = Some (3, 1)%nat /\
+  run_s2 (over_sizes 100 10) 1000 (init [200%N]) = None.
+Proof. vm_compute. split; reflexivity. Qed.
 
 (* non-vacuity / concrete shapes, stated relative to the regenerated limits *)
 Example C13_nonvacuous :
